@@ -1107,11 +1107,9 @@ fn lost_target(f: &Forest, kept: &BTreeSet<usize>, want_op: bool) -> bool {
 
 fn closure(f: &Forest, all_refs: bool, every_child: bool) -> BTreeSet<usize> {
     let mut s: BTreeSet<usize> = f.required.clone();
-    if all_refs {
-        // the unit root DIEs are always part of the output: what they reference must be kept
-        for r in &f.roots {
-            s.extend(refs_of(r, true));
-        }
+    // the unit root DIEs are always part of the output: what they reference must be kept
+    for r in &f.roots {
+        s.extend(refs_of(r, all_refs));
     }
     loop {
         let mut add = Vec::new();
@@ -1142,8 +1140,8 @@ fn oracle(f: &Forest, filtered: &Conv, unfiltered: &Conv, fo: Option<&OutDwarf>,
         (Conv::WriteErr(e), _) => return Some(format!("write-failed {e}")),
         (Conv::FilterErr(e), Conv::Ok(_)) => return Some(format!("filter-fails {e}")),
         (Conv::ConvErr(e), Conv::Ok(_)) => {
-            // name the cause: a root-DIE reference (recorded finding C19-3), or the behaviour of the
-            // repaired findings C19-1 / C19-2 (a reserved entry references, through an operation or
+            // name the cause: the behaviour of the repaired findings C19-3 (a root-DIE reference),
+            // C19-1 / C19-2 (a reserved entry references, through an operation or
             // location-list entry the filter used to ignore, an entry that was not reserved)
             let root_lost = |k: &BTreeSet<usize>| f.roots.iter().any(|r| refs_of(r, true).iter().any(|t| !k.contains(t)));
             let class = match kept {
@@ -1297,9 +1295,9 @@ const ALL_TAGS: &[u16] = &[
 struct Style {
     /// references to the root, out of bounds, into the middle of a DIE
     invalid: bool,
-    /// the recorded finding C19-3: unit root DIEs that reference DIEs (implicit_pointer,
-    /// variable_value, entry_value nesting and skipped location-list entries with references —
-    /// the repaired findings C19-1/C19-2 — are generated in every stream)
+    /// historical stream selector (the reference kinds of the repaired findings C19-1/2/3 —
+    /// implicit_pointer, variable_value, entry_value nesting, skipped location-list entries with
+    /// references, unit roots that reference DIEs — are generated in every stream now)
     finding_kinds: bool,
 }
 
@@ -1571,7 +1569,7 @@ pub fn gen(ctx: &Ctx, emit: &mut dyn FnMut(String)) {
             _ => plain,
         };
         let es = gen_forest(&mut rng, n, nunits, st);
-        let roots = if i % 4 == 1 { gen_roots(&mut rng, nunits, &es, st.finding_kinds) } else { "-".into() };
+        let roots = if i % 4 == 1 { gen_roots(&mut rng, nunits, &es, true) } else { "-".into() };
         for _ in 0..3 {
             let enc = rand_enc(&mut rng);
             let dens = rng.range(1, 6);
